@@ -63,6 +63,34 @@ def use_kidx(u):
         u.obls.append(ob)
 
 
+LMAXB = z3.Function("lmaxb", z3.ArraySort(I, XR), z3.ArraySort(I, I), I, XR)
+LMAXW = z3.Function("lmaxb_w", z3.ArraySort(I, XR), z3.ArraySort(I, I), I, I, XR, I)
+
+
+def use_lmaxb(u):
+    """lmaxb(B, E, k) = max of B[E[0]], ..., B[E[k-1]] over the extended reals (-inf for k = 0).
+    Facts (each true of that function): the empty prefix; one unfolding step between two prefixes that both occur;
+    it is an upper bound of every element of the prefix and attained when k > 0;
+    if a single-cell update of B changes the value then the updated cell is one of E[0..k) (witness position w)."""
+    if "lmaxb" in u.used:
+        return
+    u.used.add("lmaxb")
+    Bv = z3.Const("lm_B", z3.ArraySort(I, XR))
+    E = z3.Const("lm_E", z3.ArraySort(I, I))
+    k, k2, x, j = z3.Ints("lm_k lm_k2 lm_x lm_j")
+    v = z3.Const("lm_v", XR)
+    u.bg.append(z3.ForAll([Bv, E], LMAXB(Bv, E, 0) == ninf, qid="lmaxb-0", patterns=[LMAXB(Bv, E, 0)]))
+    u.bg.append(z3.ForAll([Bv, E, k, k2], z3.Implies(z3.And(k >= 0, k2 == k + 1),
+                                                    LMAXB(Bv, E, k2) == num.xr_max(LMAXB(Bv, E, k), Bv[E[k]])),
+                          qid="lmaxb-step", patterns=[z3.MultiPattern(LMAXB(Bv, E, k), LMAXB(Bv, E, k2))]))
+    u.bg.append(z3.ForAll([Bv, E, k, j], z3.Implies(z3.And(j >= 0, j < k), num.xr_le(Bv[E[j]], LMAXB(Bv, E, k))),
+                          qid="lmaxb-ub", patterns=[z3.MultiPattern(LMAXB(Bv, E, k), Bv[E[j]])]))
+    w = LMAXW(Bv, E, k, x, v)
+    u.bg.append(z3.ForAll([Bv, E, k, x, v], z3.Implies(LMAXB(z3.Store(Bv, x, v), E, k) != LMAXB(Bv, E, k),
+                                                      z3.And(w >= 0, w < k, E[w] == x)),
+                          qid="lmaxb-frame", patterns=[LMAXB(z3.Store(Bv, x, v), E, k)]))
+
+
 def use_lsum(ev):
     if "lsum" not in ev.u.used:
         ev.u.used.add("lsum")
@@ -344,6 +372,22 @@ def spec_call(ev, n, e):
     if n == "is_class":
         v = ev.ev(e.args[0])
         return Val(z3.BoolVal(True), BOOL)
+    if n == "lmaxb":
+        L = ev.ev(e.args[0])
+        k = _int(ev, ev.ev(e.args[1]), e).t if len(e.args) > 1 else ev.llen(L)
+        K, fty, key = ev.field_key(Val(z3.IntVal(0), L.ty.elem), "b_value")
+        Barr = ev.u.get_arr(ev.st, key, fty)
+        use_lmaxb(ev.u)
+        return Val(LMAXB(Barr, ev.lelts(L), k), FLOAT)
+    if n in ("xmin", "xmax"):
+        a = ev.it.coerce(ev.ev(e.args[0]), FLOAT, ev.st, e, ev.frame, spec=True)
+        b = ev.it.coerce(ev.ev(e.args[1]), FLOAT, ev.st, e, ev.frame, spec=True)
+        return Val(num.xr_min(a.t, b.t) if n == "xmin" else num.xr_max(a.t, b.t), FLOAT)
+    if n in getattr(ev.reg, "ghost_fields", ()):
+        v = ev.ev(e.args[0])
+        ev.u._key_ty.setdefault("g:" + n, INT)
+        A = ev.u.get_arr(ev.st, "g:" + n, INT)
+        return Val(A[v.t], ev.u.T(ev.reg.ghost_fields[n]))
     if n in SPECFNS:
         return SPECFNS[n](ev, e)
     if n in ev.reg.preds:
